@@ -19,18 +19,13 @@ theorem tdiv_nonneg_eq {a b : Int} (ha : 0 ≤ a) : Int.tdiv a b = a / b :=
 /-- No u64 wrap-around in the bound's arithmetic below 2^56 bytes: it is the exact formula. -/
 theorem deflateBound_eq (s : Int) (n : Nat) (hn : n < 2 ^ 56) :
     mz_deflateBound s n = max (128 + (n:Int) * 113 / 100) (128 + (n:Int) + ((n:Int) / 31744 + 1) * 5) := by
+  -- bottom-up rewriting of every wrapped u64 operation into plain arithmetic, side conditions by
+  -- `omega` (so the proof does not depend on how the source spells the two terms: locals, `31 * 1024`
+  -- or `31744`, order of the operands of `max`)
   unfold mz_deflateBound
-  simp only [Id.run, pure]
-  have h1 : G.mul (.u 64) (n:Int) 113 = (n:Int) * 113 := G.mul_u64_of_lt (by omega) (by omega)
   have h2 : G.mul (.u 64) (31:Int) 1024 = 31744 := by decide +kernel
-  rw [h1, h2]
-  unfold G.div
-  rw [tdiv_nonneg_eq (by omega), tdiv_nonneg_eq (by omega)]
-  rw [G.add_u64_of_lt (a := 128) (by omega) (by omega)]
-  rw [G.add_u64_of_lt (a := 128) (b := (n:Int)) (by omega) (by omega)]
-  rw [G.add_u64_of_lt (a := (n:Int) / 31744) (b := 1) (by omega) (by omega)]
-  rw [G.mul_u64_of_lt (by omega) (by omega)]
-  rw [G.add_u64_of_lt (by omega) (by omega)]
+  simp (disch := omega) only [Id.run, pure, h2, G.div, tdiv_nonneg_eq, G.add_u64_of_lt, G.mul_u64_of_lt] <;>
+    first | rfl | (rw [Int.max_comm]) | omega
 
 /-- Worst case of Huffman-coded output: every input byte costs 9 bits (static code, bytes ≥ 144),
     each block adds at most 2 bytes (3-bit header, 7-bit end-of-block, padding) and holds at
